@@ -45,12 +45,12 @@ CHECKS.update({
         design="6 C13"),
     "C17": dict(
         technique="Coq proofs: fault isolation of the walker model (rows of the faulty run = rows of the fault-free run minus what lies below unlistable directories; one error per such directory) and 'no stdout write site propagates its error' over write sites re-classified from the source on every run + differential test as uid 65534 and pipe-closing at every offset",
-        text="C17_isolation is proved for every tree and set of unlistable directories over model/Walk.v; C17_pipe_never_panics quantifies over every sequence of writes and every failing write, using the classification (guarded / ignored / propagated) that tools/rs2v recomputes from searcher.rs; statuses come from main.rs. The binary is run as an unprivileged user on trees with unlistable directories and unreadable files, and with the reader closing stdout after k bytes for many k in six formats.",
+        text="C17_isolation (depth-first) and C17_isolation_bfs (breadth-first, the default mode) are proved for every tree and set of unlistable directories over model/Walk.v; C17_pipe_never_panics quantifies over every sequence of writes and every failing write, using the classification (guarded / ignored / propagated) that tools/rs2v recomputes from searcher.rs; statuses come from main.rs. The binary is run as an unprivileged user on trees with unlistable directories and unreadable files, and with the reader closing stdout after k bytes for many k in six formats.",
         note="Partial: which write the kernel fails depends on LineWriter buffering (the theorem covers all); permission semantics are the kernel's (the observer computes listability from mode bits for uid 65534). C17_isolation is proved for dfs; bfs rows follow by the permutation theorem only. Opening a FIFO for a content column blocks (F47, known finding) and is excluded.",
         design="6 C17"),
     "C19": dict(
         technique="Coq proofs over the walker model (member rows exactly once after their archive; ordinary rows unchanged; limit gates regenerated from the source) + differential test on generated zip archives incl. corrupt ones",
-        text="C19_ordinary_rows_unchanged / C19_members_once / C19_walk hold for every tree and listing; the member-loop gate is regenerated from searcher.rs. The binary is run on trees with archives written by Python zipfile (all file types and modes, dates in every month, mixed-case extensions, corrupt and truncated archives) and compared with the model row for row and with the stored member attributes.",
+        text="C19_ordinary_rows_unchanged / C19_members_once / C19_walk / C19_walk_bfs hold for every tree and listing; the member-loop gate is regenerated from searcher.rs. The binary is run on trees with archives written by Python zipfile (all file types and modes, dates in every month, mixed-case extensions, corrupt and truncated archives) and compared with the model row for row and with the stored member attributes.",
         note="Partial: the zip crate's parser is not modelled; the listing of a readable archive is an input. Trusted: Python zipfile as the oracle of what was stored.",
         design="6 C19"),
     "C02": dict(
@@ -65,7 +65,7 @@ CHECKS.update({
         design="6 C03"),
     "C20": dict(
         technique="Coq proof that, for an arbitrary per-entry ignore verdict, the walker returns exactly the entries with no ignored ancestor-or-self + differential test against `git check-ignore` and against reference matchers of Docker's and Mercurial's rules, over root spellings and option/config/no-override",
-        text="C20_pruning_spec / C20_pruning_walk hold for every tree and every verdict function over model/Walk.v. On every run git repositories, docker build contexts and Mercurial repositories with generated ignore files are searched with the root spelled '.', relative, absolute or as a sub-directory (ignore file in the root or an ancestor), with the option given, taken from the configuration, overridden, or with only another tool enabled; rows must be the entries the tool does not ignore (git check-ignore; direct recursive matchers transcribing moby patternmatcher and hgignore(5)) and must equal the model fed those verdicts.",
+        text="C20_pruning_spec / C20_pruning_walk / C20_pruning_walk_bfs hold for every tree and every verdict function over model/Walk.v. On every run git repositories, docker build contexts and Mercurial repositories with generated ignore files are searched with the root spelled '.', relative, absolute or as a sub-directory (ignore file in the root or an ancestor), with the option given, taken from the configuration, overridden, or with only another tool enabled; rows must be the entries the tool does not ignore (git check-ignore; direct recursive matchers transcribing moby patternmatcher and hgignore(5)) and must equal the model fed those verdicts.",
         note="Partial: libgit2's matcher is not modelled (verdicts are inputs); the Docker / Mercurial converters (rewritten by fix commits 8f57929, ccd81bf, 554a7aa) are compared with the reference matchers by the differential test, their Coq model is in progress. Known finding F53: Docker re-includes an entry below an excluded directory, fselect prunes the directory.",
         design="6 C20"),
     "C10": dict(
